@@ -363,6 +363,10 @@ DOWNREF:
 
 		switch refable := value.(type) {
 		case *spec.Schema:
+			if refable == nil {
+				// typed nil: the pointer designates an absent schema (e.g. of a response without schema)
+				return nil, ErrNoSchema(currentRef.String())
+			}
 			if refable.Ref.String() == "" {
 				break DOWNREF
 			}
@@ -375,13 +379,21 @@ DOWNREF:
 			currentRef = refable.Ref
 
 		case *spec.SchemaOrArray:
-			if refable.Schema == nil || refable.Schema != nil && refable.Schema.Ref.String() == "" {
+			if refable == nil {
+				// typed nil: the pointer designates an absent "items"
+				return nil, ErrNoSchema(currentRef.String())
+			}
+			if refable.Schema == nil || refable.Schema.Ref.String() == "" {
 				break DOWNREF
 			}
 			currentRef = refable.Schema.Ref
 
 		case *spec.SchemaOrBool:
-			if refable.Schema == nil || refable.Schema != nil && refable.Schema.Ref.String() == "" {
+			if refable == nil {
+				// typed nil: the pointer designates an absent "additionalProperties" / "additionalItems"
+				return nil, ErrNoSchema(currentRef.String())
+			}
+			if refable.Schema == nil || refable.Schema.Ref.String() == "" {
 				break DOWNREF
 			}
 			currentRef = refable.Schema.Ref
